@@ -47,6 +47,7 @@ var c41Extra = []string{
 	"</i>", "</tr>", "</caption>", "</option>", "</form>", "</math>", "</mi>", "</annotation-xml>", "</foreignObject>",
 	"</nobr>", "</li>", "</h1>", "</button>", "</script>", "</style>", "</head>", "</frameset>", "</noscript>",
 	"</title>", "</textarea>", "</p x>", "</sarcasm>", "</colgroup>", "</tbody>", "</applet>", "<![CDATA[x]]>", "<?pi>", "&amp;",
+	"<!DOCTYPE a PUBLIC \"p'\" 's\"'>", "<!DOCTYPE html SYSTEM 'x\">y'>",
 }
 
 func c41Alphabet() []string {
